@@ -124,7 +124,35 @@ theorem idsNodup_iff (l : List Nat) : idsNodup l = true ↔ l.Nodup := by
 
 theorem wf_nodup (p : Program) (h : wf p = true) : ((allStages p).map Stage.id).Nodup := by
   simp only [wf, Bool.and_eq_true] at h
-  exact (idsNodup_iff _).mp h.1.1.1
+  exact (idsNodup_iff _).mp h.1.1.1.1.1.1
+
+theorem wf_handlers (p : Program) (h : wf p = true) : p.userHandlers.all (fun h => isSub h.1 .exc) = true := by
+  simp only [wf, Bool.and_eq_true] at h
+  exact h.1.1.1.1.1.2
+
+theorem wf_attrs (p : Program) (h : wf p = true) : (p.attrs0.map (·.1)).Nodup := by
+  simp only [wf, Bool.and_eq_true] at h
+  exact (idsNodup_iff _).mp h.1.1.2
+
+theorem wf_dicts (p : Program) (h : wf p = true) (st : Stage) (hst : st ∈ allStages p) (ds : List (DName × UC))
+    (hds : ds ∈ dictsOf st) : namesNodup (ds.map (·.1)) = true := by
+  simp only [wf, Bool.and_eq_true] at h
+  exact List.all_eq_true.mp (List.all_eq_true.mp h.1.1.1.2 st hst) ds hds
+
+theorem wf_names (p : Program) (h : wf p = true) (st : Stage) (hst : st ∈ allStages p) (n : DName)
+    (hn : n ∈ userNames st) : n ≠ nmReason := by
+  simp only [wf, Bool.and_eq_true] at h
+  have := List.all_eq_true.mp (List.all_eq_true.mp h.1.2 st hst) n hn
+  simpa using this
+
+theorem pairsNodup_iff (l : List (Nat × Nat)) : pairsNodup l = true ↔ l.Nodup := by
+  induction l with
+  | nil => simp [pairsNodup]
+  | cons x xs ih => simp [pairsNodup, ih, List.nodup_cons]
+
+theorem wf_keys (p : Program) (h : wf p = true) : ((allStages p).flatMap stageKeys).Nodup := by
+  simp only [wf, Bool.and_eq_true] at h
+  exact (pairsNodup_iff _).mp h.2
 
 /-- with distinct ids a stage is found by its id -/
 theorem findStage_of_mem (p : Program) (h : wf p = true) (st : Stage) (hm : st ∈ allStages p) :
